@@ -7,17 +7,18 @@
 set -u
 jobs="${1:-16}"; runs="${2:-12}"
 base="${VERIF_SEED:-20260925}"
-cd /verif/sim || exit 2
+VERIF="${VERIF_ROOT:-/verif}"
+cd "$VERIF/sim" || exit 2
 export CARGO_NET_OFFLINE=true
 export MIRIFLAGS="-Zmiri-ignore-leaks -Zmiri-disable-isolation"
-log=/verif/sim/target-miri/logs
+log="$VERIF/sim/target-miri/logs"
 mkdir -p "$log"
 # first invocation builds (and runs 1 run) so that the parallel ones do not race on the build
 if ! cargo +nightly miri run --offline -q -p heap-sim --target-dir target-miri -- --miri 1 --miri-seed "$base" >"$log/build.log" 2>&1; then
   if grep -q "Undefined Behavior" "$log/build.log"; then
     echo "violation: Miri reports undefined behaviour in samlang-heap:"; grep -A 25 "Undefined Behavior" "$log/build.log" | head -60
-    cp "$log/build.log" /verif/replays/C17-miri-$base-build.log
-    echo "VIOLATION property=C17 replay=/verif/replays/C17-miri-$base-build.log"
+    cp "$log/build.log" $VERIF/replays/C17-miri-$base-build.log
+    echo "VIOLATION property=C17 replay=$VERIF/replays/C17-miri-$base-build.log"
     exit 1
   fi
   echo "HARNESS ERROR: cargo +nightly miri run failed:" >&2; tail -30 "$log/build.log" >&2; exit 2
@@ -34,13 +35,13 @@ for k in $(seq 1 "$jobs"); do
   f="$log/job$k.log"
   if grep -q "Undefined Behavior" "$f"; then
     echo "violation: Miri reports undefined behaviour in samlang-heap ($(tail -1 "$f")):"; grep -A 25 "Undefined Behavior" "$f" | head -60
-    cp "$f" "/verif/replays/C17-miri-$base-job$k.log"
-    echo "VIOLATION property=C17 replay=/verif/replays/C17-miri-$base-job$k.log"
+    cp "$f" "$VERIF/replays/C17-miri-$base-job$k.log"
+    echo "VIOLATION property=C17 replay=$VERIF/replays/C17-miri-$base-job$k.log"
     rc=1
   elif grep -q "MIRI-TIER violation" "$f"; then
     grep "MIRI-TIER violation" "$f"
-    cp "$f" "/verif/replays/C17-miri-$base-job$k.log"
-    echo "VIOLATION property=C17 replay=/verif/replays/C17-miri-$base-job$k.log"
+    cp "$f" "$VERIF/replays/C17-miri-$base-job$k.log"
+    echo "VIOLATION property=C17 replay=$VERIF/replays/C17-miri-$base-job$k.log"
     rc=1
   elif ! grep -q "rc=0" "$f"; then
     echo "HARNESS ERROR: miri job $k failed:" >&2; tail -20 "$f" >&2
